@@ -45,7 +45,7 @@ pub fn gen_env(rng: &mut Rng, allow_whole_only: bool) -> EnvPlan {
             v
         }
     };
-    EnvPlan { modes, stream, faults: vec![], crash: None, buffered: rng.chance(1, 2) }
+    EnvPlan { modes, stream, faults: vec![], crash: None, buffered: rng.chance(1, 2), shared_pos: rng.chance(1, 4) }
 }
 
 pub fn gen_knobs(rng: &mut Rng, wide: bool) -> Knobs {
